@@ -164,6 +164,17 @@ def translate(repo):
         if mine[0] in found:
             raise Unsupported("two candidates for %s: %s and %s" % (mine[0], found[mine[0]][0], name))
         found[mine[0]] = (name, prog)
+    uses_ring = any(isinstance(n, ast.Attribute) and n.attr in ("_anchor", "_link_lookup") for n in ast.walk(cls[0]))
+    if not found and not uses_ring:
+        # The class keeps no hand-written linked list at all (no _anchor, no _link_lookup, none of the five
+        # helpers): the recency structure was replaced wholesale.  Then there is nothing for (T) to tie; the
+        # obligations are stated under `gen_present = true` and become vacuous, (C) alone carries the check.
+        lines.append("(* no linked-list helpers in the source: the (T) obligations are vacuous for this tree *)")
+        lines.append("Definition gen_present : bool := false.\n")
+        for coqname, _ in ROLES:
+            lines.append("Definition %s : list stmt := [].\n" % coqname)
+        return "\n".join(lines)
+    lines.append("Definition gen_present : bool := true.\n")
     for coqname, _ in ROLES:
         if coqname not in found:
             raise Unsupported("no straight-line private method of LRI plays the role %s" % coqname)
